@@ -2,7 +2,7 @@
 from xsvlib.facts import fmt, strip, place_path, walk
 from xsvlib import q
 from . import common as C
-from .store_shared import read_bodies
+from .store_shared import read_bodies, denotes_field
 from . import C03 as c03
 from . import C01 as c01
 
@@ -15,10 +15,13 @@ STRONG = "tokio::sync::mpsc::bounded::Sender<xs::store::Frame>"
 WEAK = "tokio::sync::mpsc::bounded::WeakSender<xs::store::Frame>"
 
 
+_RUN = [None]
+
+
 def limit_none_edges(body):
     out = []
     for bb, si in body.switches():
-        if si["kind"] == "variant" and any((x[0] == "field" and "limit" in str(x[2])) or (x[0] in ("arg", "local") and x[2] == "limit") for x in walk(si["cond"])):
+        if si["kind"] == "variant" and "option::Option" in (si.get("adt") or "") and denotes_field(_RUN[0], body, si["cond"], "limit"):
             for (t, lab, m) in si["edges"]:
                 ms = m if isinstance(m, tuple) else (m,)
                 if ms == ("None",):
@@ -37,7 +40,7 @@ def limit_cmp_edges(body):
             continue
         rel, l, r = cmp_
         def is_limit(x):
-            return any((y[0] == "field" and "limit" in str(y[2])) or (y[0] in ("arg", "local") and y[2] == "limit") for y in walk(x))
+            return denotes_field(_RUN[0], body, x, "limit")
         if is_limit(r) and not is_limit(l):
             pass
         elif is_limit(l) and not is_limit(r):
@@ -51,6 +54,7 @@ def limit_cmp_edges(body):
 
 
 def r1(run):
+    _RUN[0] = run
     ls = c03.live_shape(run)
     if ls is None:
         run.missing("%s|live-body" % C.READ, "live task not found")
@@ -96,6 +100,7 @@ def r1(run):
 
 
 def r2(run):
+    _RUN[0] = run
     rb = read_bodies(run)
     h = rb["history"]
     if h is None:
@@ -113,6 +118,7 @@ def r2(run):
 
 
 def r3(run):
+    _RUN[0] = run
     rb = read_bodies(run)
     main, hist = rb["main"], rb["history"]
     if main is None or hist is None:
@@ -135,6 +141,7 @@ def r3(run):
 
 
 def r4(run):
+    _RUN[0] = run
     facts = run.facts
     bodies = facts.bodies_under(C.READ)
     bad = []
@@ -170,6 +177,7 @@ def r4(run):
 
 
 def r6(run):
+    _RUN[0] = run
     rb = read_bodies(run)
     main, hist, live, hb = rb["main"], rb["history"], rb["live"], rb["heartbeat"]
     holders = []
@@ -229,6 +237,7 @@ def r6(run):
 
 
 def r7(run):
+    _RUN[0] = run
     ls = c03.live_shape(run)
     if ls is None:
         run.missing("%s|live-body" % C.READ, "live task not found")
